@@ -373,6 +373,8 @@ func main() {
 	}
 	fmt.Printf("check=%s tier=%s shards=%d evaluations=%d nontrivial=%d states=%d transitions=%d executions=%d exhaustive=%v outcomes=%d violations=%d known=%d wall=%.1fs\n",
 		id, tier, shards, mg.Evaluations, mg.Nontrivial, mg.States, mg.Transitions, mg.Executions, mg.Exhaustive, len(mg.Outcomes), nViol, nKnown, wall)
+	os.RemoveAll(tmp)
+	os.Remove(bin)
 	if mg.HarnessErr != "" {
 		os.Exit(2)
 	}
